@@ -391,7 +391,10 @@ struct SctpInner {
     last_suspicious_rto_log: Mutex<Option<(Instant, u32)>>,
 
     // Outqueue for non-blocking sends
+    #[cfg(not(rustrtc_verif))]
     outbound_queue: Mutex<VecDeque<OutboundChunk>>,
+    #[cfg(rustrtc_verif)]
+    outbound_queue: crate::verif_hooks::sync::Mutex<VecDeque<OutboundChunk>>,
     queued_bytes: AtomicUsize,
     // Set by transmit() when it leaves data in outbound_queue because the
     // window (cwnd / peer rwnd / burst budget) is exhausted. Consumed by
@@ -856,7 +859,10 @@ impl SctpTransport {
             last_t3_fire_time: Mutex::new(None),
             cached_rto_timeout: Mutex::new(None),
             last_suspicious_rto_log: Mutex::new(None),
+            #[cfg(not(rustrtc_verif))]
             outbound_queue: Mutex::new(VecDeque::new()),
+            #[cfg(rustrtc_verif)]
+            outbound_queue: crate::verif_hooks::sync::Mutex::new(VecDeque::new()),
             queued_bytes: AtomicUsize::new(0),
             window_limited: AtomicBool::new(false),
             last_sack_time: Mutex::new(None),
@@ -1009,6 +1015,19 @@ impl SctpTransport {
         self.close_tx.notify_one();
         // Wake any task parked in send_data_raw()'s flow-control loop.
         self.inner.flow_control_notify.notify_waiters();
+    }
+}
+
+#[cfg(rustrtc_verif)]
+impl SctpTransport {
+    /// (stream id, SSN, flags, payload length) of every chunk waiting in the outbound queue, in queue order.
+    pub fn verif_outbound_snapshot(&self) -> Vec<(u16, u16, u8, usize)> {
+        self.inner
+            .outbound_queue
+            .lock()
+            .iter()
+            .map(|c| (c.stream_id, c.ssn, c.flags, c.payload.len()))
+            .collect()
     }
 }
 
